@@ -378,6 +378,10 @@ def r5(ctx):
     from . import apifw
     apifw.check_forwarder(ctx, "C14.R5", "doc_open", "OpenRequest", ["open(req.doc_id,"], "Ok(OpenResponse)")
     apifw.check_forwarder(ctx, "C14.R5", "doc_close", "CloseRequest", ["close(req.doc_id)"], "Ok(CloseResponse)")
+    apifw.check_forwarder(ctx, "C14.R5", "doc_status", "StatusRequest", ["get_state(req.doc_id)"], "Ok(StatusResponse(result-of-get_state))")
+    apifw.check_client(ctx, "C14.R5", "api::Doc::close", "CloseRequest")
+    apifw.check_client(ctx, "C14.R5", "api::Doc::status", "StatusRequest")
+    apifw.check_client(ctx, "C14.R5", "api::DocsApi::open", "OpenRequest", doc_from="arg.id")
     ctx.floor("C14.R5", 4)
 
 
